@@ -39,6 +39,34 @@ CLAIMS: dict = {
         technique='contract-based deductive verification: AST->VC symbolic execution of the real query functions + '
                   'SQL->FOL translation, obligations discharged by z3',
         engines=['pyvc', 'sqlvc']),
+    'C08': dict(
+        category='proof',
+        text='find_lexicons executed symbolically (z3 strings) for specifier lists of one or two arbitrary tokens and an '
+             'optional language: per token the statement AST (SELECT DISTINCT over lexicons, id||":"||version GLOB '
+             ':specifier, language condition), the :specifier value (":*" appended iff no ":"), LIMIT 1 + ORDER BY rowid '
+             'DESC exactly for a bare id, no lexicon yielded twice, wn.Error iff nothing found and a constraint given; '
+             'wn.lexicons() maps the error to []. The meaning of GLOB patterns and the end-to-end selection are a '
+             'BOUNDED stand-in: real databases (prefix ids, versions added in both orders, dotted/plus/hyphen versions, '
+             'two languages) x a pool of specifier strings singly and in pairs x lang, against a reference '
+             'implementation of the documented table.',
+        note='A-GLOB (SQLite GLOB) is exercised only by the bounded part; A-SPLIT; specifier lists longer than two tokens '
+             'are covered by the per-token structure of the loop (each token handled independently, duplicates filtered '
+             'through one set). Fixed finding F9.',
+        technique='contract-based deductive verification: symbolic execution with z3 strings + SQL AST obligations; bounded '
+                  'end-to-end stand-in for GLOB semantics',
+        engines=['pyvc', 'sqlvc', 'bounded']),
+    'C19': dict(
+        category='proof',
+        text='_add_ili: effect log of the symbolically executed real function = INSERT OR IGNORE of status names + upsert '
+             'ON CONFLICT(id) DO UPDATE SET status_rowid, definition (exactly these, no WHERE), row image per listed ILI '
+             '(default status active), frame (only ilis / ili_statuses written), one transaction; _insert_synsets '
+             'creates unknown ILIs as presupposed with INSERT OR IGNORE; z3 lemmas over these contracts: idempotence, '
+             'order independence of (status, definition) w.r.t. add(lexicons), listed ILIs authoritative; ILI queries '
+             'and accessors proved exact.',
+        note='SQLite upsert semantics assumed (existing row keeps rowid and other columns). wn._ili.load / is_ili are a '
+             'bounded stand-in on generated files. Fixed finding F11 (single-column ILI file not recognised).',
+        technique='contract-based deductive verification: effect-log/row-image obligations + z3 lemmas; bounded file parsing',
+        engines=['pyvc', 'sqlvc', 'bounded']),
     'C09': dict(
         category='proof',
         text='_find_helper proved equivalent (same query calls, same results) to the documented exact/normalized/'
